@@ -950,7 +950,7 @@ impl<'a> Parser<'a> {
                 break;
             }
             items.push(if skip_token!(self, Token::ParenOpen) {
-                let rv = ok!(self.parse_assignment(dotted));
+                let rv = ok!(with_recursion_guard!(self, self.parse_assignment(dotted)));
                 expect_token!(self, Token::ParenClose, "`)`");
                 rv
             } else {
